@@ -289,7 +289,9 @@ def check_sequence(case):
         tc = sorted({token_class(w) for w in words if w not in IDX})
         for c in tc:
             cls.append("tok:" + c)
-        sub = "non-list-word/" + tc[0]
+        # signature family by likely root cause: fuzzy matching / case folding / normalising / no lookup at all
+        fam = {"prefix": "near-word", "list-word-extended": "near-word", "ascii-nonword": "near-word"}
+        sub = "non-list-word/" + sorted({fam.get(c, c) for c in tc})[0]
     if not raised(got):
         f.add(f"accept/invalid-accepted/{sub}", f"{s!r} -> {got!r}")
     return cls, f
@@ -605,7 +607,8 @@ def check_seed(case):
         if how == "default":
             f.expect(ok, "seed/default-passphrase-ne-empty", f"{got!r}")
         else:
-            f.expect(ok, f"seed/ne-reference/{sub}", f"got {got.hex() if _is_bytes(got) else got!r} want {want.hex()}")
+            shown = bytes(got).hex()[:32] + ".." if _is_bytes(got) else repr(got)[:80]
+            f.expect(ok, f"seed/ne-reference/{sub}", f"m={m[:60]!r} p={p[:40]!r}: got {shown} want {want.hex()[:32]}..")
     return cls, f
 
 
